@@ -24,6 +24,7 @@ def reference_document() -> dict:
              "properties": {"id": {"type": "integer", "description": "The id."},
                             "1st": {"type": "string", "description": "Starts with a digit."},
                             "kind": {"type": "string", "enum": ["a", "b"], "description": "The kind."},
+                            "format": {"$ref": "#/components/schemas/Format"},
                             "inner": {"title": "Titled", "type": "object", "description": "An inline model with a title.", "properties": {"x": S}},
                             "note": {"type": "string", "description": "A note."}}}
     ok_thing = {"200": {"description": "ok", "content": {"application/json": {"schema": {"$ref": "#/components/schemas/Thing"}}}}}
@@ -35,10 +36,14 @@ def reference_document() -> dict:
                                  "parameters": [{"name": "id", "in": "path", "required": True, "schema": {"type": "integer"}},
                                                 {"name": "kind", "in": "query", "schema": {"type": "string", "enum": ["a", "b"]}}],
                                  "responses": ok_thing}},
+        # two DIFFERENT operations whose module names coincide, under different tags
+        "/v1/items": {"get": {"operationId": "listItems", "tags": ["v1"], "responses": ok_thing}},
+        "/v2/items/{shelf}": {"get": {"operationId": "list_items", "tags": ["v2"], "parameters": [{"name": "shelf", "in": "path", "required": True, "schema": S}], "responses": ok_thing}},
         "/blob": {"post": {"operationId": "uploadBlob", "requestBody": {"required": True, "content": {BLOB: {"schema": {"type": "string", "format": "binary"}}}},
                            "responses": {"200": {"description": "ok", "content": {BLOB: {"schema": {"type": "string", "format": "binary"}}}}}}},
     }
-    d = gen.mkdoc({"Thing": thing}, paths, title="My API")
+    # an enum whose class name in snake case is a builtin: its module is format_, its helper names derive from the class name
+    d = gen.mkdoc({"Thing": thing, "Format": {"type": "string", "enum": ["json", "xml"]}}, paths, title="My API")
     d["info"]["version"] = "1.2.3"
     return d
 
